@@ -148,7 +148,7 @@ def group_case(case, wctx):
 
 def run(ctx):
     quick = ctx.tier == "quick"
-    ng = 8 if quick else 96
+    ng = 8 if quick else 64
     ctx.rule = (f"groups of {NVAL + 6} items (generated values incl. frozensets of frozensets and permuted dict/set "
                 "orders, xor-group tasks as values, a file-input task) whose checksum and value hash are computed in "
                 "4 (thorough: 6) fresh interpreters with different PYTHONHASHSEED / insertion order / pickling, plus "
